@@ -197,3 +197,57 @@ PROPS["C07"] = {
     "vacuity": need(["cases_with_sparse_then_dense_group_of_ones", "cases_with_sparse_then_dense_group_of_zeros",
                      "cases_with_threshold_group_of_ones", "cases_with_dense_then_sparse_group_of_ones", "empty_cases"]),
 }
+
+PROPS["C08"] = {
+    "bin": "mc_hist",
+    "quick": [step("mc_hist", CHK)],
+    "thorough": [step("mc_hist", CHK), step("mc_hist", FAST)],
+    "evidence": mc_evidence(
+        "explicit-state BFS (stateright) over operation histories of the real BitVectorMut run in lock step with a Vec<bool>: "
+        "state = (reference bits, real value incl. its ones counter and every word of every line, depth); ~50 actions per state "
+        "(push, append_bits, extend_with_zeros, set, set_bits, extend with bools / with positions incl. a non-monotone list); "
+        "the always-property observes EVERY state completely: len, counts, every bit, get_bits for every 1<=len<=64 at every "
+        "start (all starts when n<=140, word/line boundaries and the tail otherwise), every word incl. zero padding, iter/ones/"
+        "zeros, *_with_pos from 15 start positions incl. past the end, conversion to BitVector and back, clone, equality with "
+        "the vector collected from bools / from positions, inequality with a one-bit / one-length neighbour. Counterexample "
+        "paths are re-executed outside the explorer before they are reported.",
+        TRUST + ["stateright 0.31 (BFS, fingerprints)"],
+        "quick: depth 4 from the empty vector (split by first action), depth 2 from 29 other start states (with_capacity, "
+        "all-zeros / all-ones / alternating of length 0,1,62..65,510..513); thorough: depth 5 resp. 3, both build profiles. "
+        "Mutator arguments stay inside the documented preconditions (documented panics are C04's subject)."),
+    "vacuity": lambda results: None if _merge_counters(results)[0].get("states", 0) > 1000 else "fewer than 1000 states",
+}
+
+PROPS["C12"] = {
+    "bin": "mc_hist",
+    "quick": [step("mc_hist", CHK)],
+    "thorough": [step("mc_hist", CHK), step("mc_hist", FAST)],
+    "evidence": mc_evidence(
+        "exhaustive enumeration of iterator call histories with re-execution (the iterators are not Clone): for every tree alias "
+        "x {iter(), (&t).into_iter(), into_iter()} x every sequence of TINY(3,4): all 2^(n+k) histories over {next, next_back} "
+        "of length n+k (k=2 quick, 3 thorough), with len() observed (twice) after every step, against a VecDeque - yielded "
+        "value, remaining length, None forever after exhaustion with len 0; for BitVectorIter, BitVectorIntoIter, position "
+        "iterators, QVectorIterator (borrowing/consuming, also via RSQVector) and the DArray iterators: next() n+4 times with "
+        "len() where implemented, over all short inputs and lengths around 64/512 resp. 128/256. states = iterator "
+        "configurations visited, transitions = calls executed.",
+        TRUST,
+        "sequences up to length 4 for the double-ended histories (all interleavings), TINYBIT(5)/TINYQ(4) + boundary lengths "
+        "for the forward iterators."),
+    "vacuity": lambda results: None if _merge_counters(results)[0].get("histories", 0) > 1000 else "fewer than 1000 histories",
+}
+
+PROPS["C13"] = {
+    "bin": "mc_hist",
+    "quick": [step("mc_hist", CHK)],
+    "thorough": [step("mc_hist", CHK), step("mc_hist", FAST)],
+    "evidence": mc_evidence(
+        "explicit-state BFS (stateright) over push/extend histories of the real QVectorBuilder next to a Vec<u8>: actions = "
+        "push(v) for 8 byte values incl. 4, 7, 252, 255 and extend with 7 lists (0, 1, 4, 64, 128, 130, 257 values incl. "
+        "negative ones, MIN and MAX) typed as each of the 12 primitive integer types; start states pre-filled to 28 lengths "
+        "around 32/64/96/128/192/256/384/512; every state is built and observed completely (len, is_empty, get for every "
+        "i <= n+1, the three iterators, equality with from_iter of the same values, inequality with a one-symbol neighbour). "
+        "Plus the E1 family: collect of every integer type over all of TINYQ(L) with values offset by multiples of 4 and negated.",
+        TRUST + ["stateright 0.31"],
+        "quick: depth 4 from empty, 3 from the other starts, TINYQ(5); thorough: depth 5 / 4, TINYQ(7), both profiles."),
+    "vacuity": lambda results: None if _merge_counters(results)[0].get("states", 0) > 1000 else "fewer than 1000 states",
+}
